@@ -1,5 +1,6 @@
 use crate::prop::Prop;
 pub mod c01;
+pub mod c02;
 pub mod c04;
 pub mod c05;
 pub mod c12;
@@ -9,6 +10,7 @@ pub mod tools;
 pub fn lookup(id: &str) -> Option<&'static dyn Prop> {
     Some(match id {
         "C01" => &c01::C01,
+        "C02" => &c02::C02,
         "C04" => &c04::C04,
         "C05" => &c05::C05,
         "C12" => &c12::C12,
